@@ -236,6 +236,8 @@ def m_int(it, *a, **k):
         return v
     if isinstance(v, SBool):
         return SInt(z3.If(v.t, 1, 0))
+    if type(v).__name__ == "SymIP":
+        return v.value
     if isinstance(v, Sym):
         raise Unsupported("int() of symbolic non-integer")
     try:
